@@ -16,6 +16,15 @@ class AnalysisError(Exception):
     count below its confirmed floor). Exit code 2, never a violation and never a pass."""
 
 
+class Unproven(AnalysisError):
+    """The tree has a construct the argument cannot be carried through (a value the rules must evaluate is no longer a constant,
+    a helper became recursive, ...): not proved for this tree.  Reported as a finding naming the construct (exit 1)."""
+
+    def __init__(self, construct: str, message: str, path: str = "", line: int = 0) -> None:
+        super().__init__(message)
+        self.construct, self.message, self.path, self.line = construct, message, path, line
+
+
 class UnprovenScope(AnalysisError):
     """A function the argument depends on uses a construct outside the analysed subset (generator, async, match, ...): the property
     is not proved for this tree.  Reported as a finding naming the function and construct (exit 1), not as a broken analysis."""
